@@ -322,6 +322,24 @@ Plan gen_c03(uint64_t seed, bool th) {
     if (g.r.pct(50)) g.add(g.mk("addmatch", i, {-1}, {g.r.pct(50) ? "type='signal'" : "eavesdrop='true'"}));
   g.add(g.bus_step(3));
   g.add(g.mk("check"));
+  if (!g.p.cfg.count("uniq.minor") && g.r.pct(15)) {
+    // the name counter reaches the end of its minor range AFTER low names have been handed out and given up:
+    // whatever comes next, it is not a name the bus has used before ("never reused during the lifetime of the bus")
+    g.add(g.mk("close", (int)g.r.below((uint64_t)g.sh.nclients)));
+    g.add(g.bus_step(3));
+    g.add(g.mk("uniq", -1, {1, (int64_t)(2147483647 - (int)g.r.below(2))}));
+    int base = g.sh.nclients;
+    for (int k = 0; k < 4; k++) {
+      int nj = base + k;
+      g.add(g.mk("connect", nj, {0, 0, 1000 + nj, 0, 0}));
+      g.add(g.mk("auth", nj, {1}));
+      g.add(g.mk("hello", nj, {-1}));
+      g.add(g.bus_step(3));
+      g.add(g.mk("drain", nj));
+    }
+    g.sh.nclients = base + 4;
+    g.add(g.mk("check"));
+  }
   if (g.r.pct(25)) {
     // a monitor watches: what it is shown carries the true sender and none of the injected fields either -
     // including messages the bus answers itself and messages of connections that have not said Hello
